@@ -348,6 +348,72 @@ def _c09_extra():
 
     attempt("engine_order", b_eng_order,
             "def engine_order : List String := engineOrder\ndef engine_multicoil_gt : Int := 1\n")
+    # --- every sensitivity-map site under direct/nn ------------------------------------------------
+    def b_sites():
+        import pathlib
+        rows, plans = [], []
+        root = pathlib.Path(REPO) / "direct" / "nn"
+        for path in sorted(root.rglob("*.py")):
+            rel = str(path.relative_to(REPO))
+            tree = parse_file(path)
+            for cls in [n for n in tree.body if isinstance(n, ast.ClassDef)]:
+                for fn in [n for n in cls.body if isinstance(n, ast.FunctionDef)]:
+                    qual = f"{cls.name}.{fn.name}"
+                    for n in ast.walk(fn):
+                        if isinstance(n, ast.Call) and isinstance(n.func, ast.Attribute) and n.func.attr == "compute_sensitivity_map":
+                            rows.append((rel, qual, "call:compute_sensitivity_map"))
+                    if qual == "MRIModelEngine.compute_sensitivity_map":
+                        continue
+                    # own normalisation: `<x>_norm = sqrt(sum of squares)` … safe_divide(<x>, <x>_norm)
+                    norm = uns = None
+                    var = None
+                    for st in all_stmts(fn):
+                        if isinstance(st, ast.Assign) and isinstance(st.targets[0], ast.Name) and st.targets[0].id.endswith("sensitivity_map_norm"):
+                            var = st.targets[0].id[: -len("_norm")]
+                            try:
+                                env = _self_ints(tree, cls.name)
+                                if norm is None:
+                                    norm = _norm_expr(st.value, env, var)
+                                else:
+                                    uns = _unsqueeze_axes(st.value, env, st.targets[0].id)
+                            except Untranslatable:
+                                pass
+                    if var is not None:
+                        divides = any(isinstance(n, ast.Call) and ast.unparse(n.func).endswith("safe_divide") and len(n.args) == 2
+                                      and ast.unparse(n.args[0]) == var and ast.unparse(n.args[1]) == var + "_norm"
+                                      for n in ast.walk(fn))
+                        rows.append((rel, qual, "own-normalisation" if (norm and uns and divides) else "own-normalisation-unparsed"))
+                        if norm and uns and divides:
+                            plans.append((qual, (*norm, uns)))
+        txt = ("/-- every place under `direct/nn` where a sensitivity map is refined / normalised: calls of "
+               "`compute_sensitivity_map` and functions that normalise a map themselves -/\n"
+               "def sens_sites : List (String × String × String) := [\n"
+               + ",\n".join(f'  ("{a}", "{b}", "{c}")' for a, b, c in rows) + "\n]\n"
+               "/-- the norm plans of the functions that normalise a map themselves -/\n"
+               "def own_norm_plans : List (String × (Bool × Int × List Int × List Int)) := [\n"
+               + ",\n".join(f'  ("{q}", ({"true" if p[0] else "false"}, {p[1]}, {_lean_ints(p[2])}, {_lean_ints(p[3])}))' for q, p in plans)
+               + "\n]\n")
+        return txt
+
+    attempt("sens_sites", b_sites, "def sens_sites : List (String × String × String) := []\n"
+                                   "def own_norm_plans : List (String × (Bool × Int × List Int × List Int)) := []\n")
+
+    def b_normalize_keys():
+        keys = None
+        for fname in ("build_supervised_mri_transforms",):
+            fn = find_function(parse_file(REPO / MT), fname)
+            for n in ast.walk(fn):
+                if isinstance(n, ast.Call) and ast.unparse(n.func) in ("Normalize", "NormalizeModule"):
+                    for kw in n.keywords:
+                        if kw.arg == "keys_to_normalize" and isinstance(kw.value, (ast.List, ast.Tuple)):
+                            keys = [ast.unparse(e) for e in kw.value.elts]
+        if keys is None:
+            raise Untranslatable("Normalize(keys_to_normalize=[…]) not found in build_supervised_mri_transforms")
+        return ("/-- keys rescaled by `Normalize` in `build_supervised_mri_transforms` (the sensitivity map must not be one) -/\n"
+                f"def normalize_keys : List String := {_lean_strs(keys)}\n")
+
+    attempt("normalize_keys", b_normalize_keys, "def normalize_keys : List String := normalizeKeysAllowed\n")
+
     return "\n".join(chunks), status
 
 
